@@ -652,10 +652,12 @@ def check_case(ctx, case, collect=None):
                     if case.get('desc') is not None and y.get('description') != case['desc']:
                         probs.append(('violation', 'description-changed', '%r vs %r' % (y.get('description'), case['desc'])))
                     y = y['obsdata']
-                    if isinstance(y, list) and len(y) == 1 and not isinstance(x, list):
-                        y = y[0]
-                    elif isinstance(y, list) and len(y) == 1 and isinstance(x, list):
-                        y = y[0]
+                    # documented: 'obsdata' is the list of the structures of the file - here exactly one
+                    if not isinstance(y, list) or len(y) != 1:
+                        probs.append(('violation', 'full-output-obsdata', "'obsdata' is %s, documented: a list with the one structure written" % (
+                            ('a list of %d' % len(y)) if isinstance(y, list) else type(y).__name__)))
+                        return probs
+                    y = y[0]
             except Exception as e:
                 if tr in ('csv', 'sql') and case['seed'] % 2 and 'common spacing' in str(e):
                     # auto_gamma=True analyses on import; replicas without a common spacing cannot be analysed (C02: refused)
